@@ -479,7 +479,7 @@ func (e *Enc) typeInvFormula(st *State, v *Val) string {
 				fs = append(fs, intRangeFormula(t, lf.T))
 			} else if u.Info()&types.IsString != 0 {
 				e.useStr = true
-				fs = append(fs, "(>= (slen "+t+") 0)")
+				fs = append(fs, "(>= (slen "+t+") 0)", "(<= (slen "+t+") 4611686018427387904)")
 			}
 		case *types.Pointer:
 			sub := lf.Path[len(lf.Path)-1]
